@@ -249,7 +249,7 @@ func (S06) RunTape(t *sim.Tape, st *sim.Stats, keepLog bool) *sim.Outcome {
 		seam.NextWrite = func() *simstore.WriteFault {
 			switch kind {
 			case 8:
-				return &simstore.WriteFault{Kind: "writeerr", AtWrite: pos, Partial: pos2}
+				return &simstore.WriteFault{Kind: "writeerr", AtWrite: pos, Partial: pos2, OneShot: sticky}
 			case 9:
 				return &simstore.WriteFault{Kind: "commiterr"}
 			}
@@ -481,6 +481,12 @@ func judgeLoad(o *sim.Outcome, st *sim.Stats, codec gen.Codec, fn, kind string, 
 		st.Inc("probe.consumer_stopped_before_eof")
 	}
 	if res.err == nil {
+		if rd.R.ErrAt < 0 && !hashesTo(L, rd.R.D) {
+			// The stored block (the whole stream up to its EOF) does not hash to the link, yet the load
+			// succeeded -- whether or not it read that far: a load must verify the block, not a prefix of it.
+			o.Fail("unverified-data-returned", sig, "%s succeeded although the stored block (%d bytes; the intact one has %d) does not hash to the link; the consumer read %d bytes of it (stream drained: %v)", fn, len(rd.R.D), len(B), len(delivered), rd.Drained())
+			return "UNVERIFIED"
+		}
 		if !dOK {
 			o.Fail("unverified-data-returned", sig, "%s succeeded although the %d bytes the reader delivered do not hash to the link (stored block: %d bytes; stream drained: %v)", fn, len(delivered), len(B), rd.Drained())
 			return "UNVERIFIED"
@@ -653,9 +659,11 @@ func (sc S06) Unit(u *scen.Unit) {
 	}
 	// store side
 	for j := 0; j < bi.NWrites && j < 300; j++ {
-		u.Exec(map[string]int{"f.kind": 8, "f.pos": j, "f.pos2": 0})
-		u.Exec(map[string]int{"f.kind": 8, "f.pos": j, "f.pos2": 1 + int(sim.SeedFor(int64(u.Seed), "partial", j)%7)})
-		u.St.Add("enum.writeerr", 2)
+		u.Exec(map[string]int{"f.kind": 8, "f.pos": j, "f.pos2": 0, "f.sticky": 0})
+		u.Exec(map[string]int{"f.kind": 8, "f.pos": j, "f.pos2": 1 + int(sim.SeedFor(int64(u.Seed), "partial", j)%7), "f.sticky": 0})
+		// transient failure: only this one Write fails, later ones succeed again
+		u.Exec(map[string]int{"f.kind": 8, "f.pos": j, "f.pos2": 0, "f.sticky": 1})
+		u.St.Add("enum.writeerr", 3)
 	}
 	u.Exec(map[string]int{"f.kind": 9})
 	u.St.Inc("enum.commiterr")
